@@ -244,7 +244,9 @@ def update_dictionary(current, update):
     Expects current to be a dictionary, with no restriction on the types of objects
     stored within it, and no defaults values.
     """
-    result = current
+    # a new dictionary: ``current`` may be the variable's default, which
+    # other variables declared with the same schema share
+    result = dict(current)
 
     for key, value in update.items():
         if key == "_add":
@@ -258,6 +260,7 @@ def update_dictionary(current, update):
             for k in value:
                 del result[k]
         elif key in result:
+            result[key] = dict(result[key])
             result[key].update(value)
         else:
             raise Exception(f"Invalid dict_value_updater key: {key}")
